@@ -28,10 +28,11 @@ Inductive real :=
 Inductive case :=
 | CPulse (p : pt) (rho : list (var * Q)) (sdur : option Q) (r : real) (obs : list chobs)
          (padlen : Q) (padded : real)    (* pad_to(total + padlen) instantiated *)
+         (strict : bool)                 (* false for the malformed stream (a parameter is missing) *)
 | CCrash.
 
 Definition oq_eqb (a b : option Q) : bool := opt_eqb Qeq_bool a b.
-(* for templates that cannot be instantiated at the given parameters (a parameter is missing) the model's strict
+(* when a parameter is missing (malformed stream) the model's strict
    evaluation may fail where sympy's simplifier has already removed the missing symbol (x*0 = 0): only agreement
    where the model does evaluate is demanded there *)
 Definition oq_sub (m r : option Q) : bool := match m with Some _ => oq_eqb m r | None => true end.
@@ -52,12 +53,12 @@ Definition real_matches (r : real) (d : option pulse) : bool :=
 Definition check_corr (cs : case) : bool :=
   match cs with
   | CCrash => false
-  | CPulse p rl sdur r obs padlen padded =>
+  | CPulse p rl sdur r obs padlen padded strict =>
       let rho := env_of rl in
       let den := denote p rho in
-      (match den with Some _ => oq_eqb | None => oq_sub end) (eval rho (duration_expr p)) sdur
+      (if strict then oq_eqb else oq_sub) (eval rho (duration_expr p)) sdur
       && chans_sub (map co_chan obs) (channels p) && chans_sub (channels p) (map co_chan obs)
-      && (let cmp := match den with Some _ => oq_eqb | None => oq_sub end in
+      && (let cmp := if strict then oq_eqb else oq_sub in
           forallb (fun o =>
                     cmp (model_q QIntegral p rho (co_chan o)) (co_sint o)
                     && cmp (model_q QInitial p rho (co_chan o)) (co_sini o)
@@ -92,7 +93,7 @@ Definition check_corr (cs : case) : bool :=
 Definition check_spec (cs : case) : bool :=
   match cs with
   | CCrash => false
-  | CPulse p rl sdur r obs padlen padded =>
+  | CPulse p rl sdur r obs padlen padded strict =>
       let rho := env_of rl in
       match r with
       | RErr => true
